@@ -152,7 +152,13 @@ func (m *maxDifferenceWatermarkGenerator) Run(ctx execution.ExecutionContext, pr
 			}
 		}
 
-		curTimeValueRoundedDown := time.Unix(0, record.Values[m.timeFieldIndex].Time.UnixNano()/int64(resolution.Duration)*int64(resolution.Duration))
+		curTimeValueNanos := record.Values[m.timeFieldIndex].Time.UnixNano()
+		curTimeValueRemainder := curTimeValueNanos % int64(resolution.Duration)
+		if curTimeValueRemainder < 0 {
+			// Round down (towards negative infinity) also for times before the Unix epoch.
+			curTimeValueRemainder += int64(resolution.Duration)
+		}
+		curTimeValueRoundedDown := time.Unix(0, curTimeValueNanos-curTimeValueRemainder)
 
 		if curTimeValueRoundedDown.After(maxValue) {
 			maxValue = curTimeValueRoundedDown
